@@ -635,6 +635,7 @@ def check_history(kind, seed, length):
             st.extra["buf"] = buf
             st.extra["devcell"] = devcell
             args = [RefV(root), M._mkslice(msg, 0), RefV(devcell, (), True), RefV(Cell(DM.context_value(mav), "context"), (), True), RefV(buf, (), True)]
+            eng.step_budget, eng._steps_used, eng._forks_used = 16000, 0, 0
             try:
                 rs = eng.run(body, args, st)
             except (fdai.TooManyPaths, RecursionError) as e:
@@ -666,6 +667,9 @@ def check(R, rule, kind, tier, what, floor):
     bad = []
     total = 0
     for seed in range(n_h):
+        if sum(1 for b_ in bad if "undecided" in b_) > 2:
+            bad.append("history %d: undecided: not evaluated (the first histories are undecided)" % seed)
+            continue
         try:
             n, d = check_history(kind, seed, length)
         except facts.AnchorLost as e:
